@@ -94,3 +94,35 @@ package compress
 //@   loop 0: invariant [idx]  -1 <= $idx && $idx < len(opts) && cs.m != nil
 //@   loop 0: invariant [registered] forall j int :: 0 <= j && j <= $idx ==> cs.m.dom[box(opts[j].Name)] && fresh(unbox(cs.m.vals[box(opts[j].Name)], "*compressSrv"))
 //@   loop 0: invariant [kept] forall k any :: old(cs.m.dom[k]) ==> cs.m.dom[k]
+
+// ---- decoders (compress.go) ---------------------------------------------------------------
+
+//@ spec func lz4Dec(b Bytes) Bytes
+//@ spec func snzDec(b Bytes) Bytes
+//@ spec func zstDec(b Bytes) Bytes
+//@ spec func decodeOf(enc string, b Bytes) Bytes := (enc == "gzip") ? gzipDec(b) : ((enc == "br") ? brDec(b) : ((enc == "lz4") ? lz4Dec(b) : ((enc == "snz") ? snzDec(b) : ((enc == "zst") ? zstDec(b) : b))))
+//@ pred knownEncoding(enc string) := enc == "gzip" || enc == "br" || enc == "lz4" || enc == "snz" || enc == "zst" || enc == ""
+//@ axiom [compress-errors]: notSupportedEncoding != nil
+
+//@ func (srv *compressSrv) LZ4Decode(data []byte) (out []byte, err error)
+//@   requires [recv] srv != nil
+//@   nopanic
+//@   ensures [codec] err == nil ==> contents(out) == lz4Dec(contents(data))
+
+//@ func (srv *compressSrv) SnappyDecode(data []byte) (out []byte, err error)
+//@   requires [recv] srv != nil
+//@   nopanic
+//@   ensures [codec] err == nil ==> contents(out) == snzDec(contents(data))
+
+//@ func (srv *compressSrv) ZSTDDecode(data []byte) (out []byte, err error)
+//@   requires [recv] srv != nil
+//@   nopanic
+//@   ensures [codec] err == nil ==> contents(out) == zstDec(contents(data))
+
+// each documented encoding name goes to its own decoder, "" is the identity, anything else an error
+//@ func (srv *compressSrv) Decompress(encoding string, data []byte) (out []byte, err error)
+//@   requires [recv] srv != nil
+//@   nopanic
+//@   ensures [dispatch] err == nil ==> contents(out) == decodeOf(encoding, contents(data))
+//@   ensures [unknown]  !knownEncoding(encoding) ==> err != nil
+//@   ensures [identity] encoding == "" ==> err == nil && out == data
